@@ -2,8 +2,10 @@
    Only statements, each closed by exact <lemma>, with Print Assumptions, and non-vacuity Examples.
    Models: Model/Uri.v (urllib.parse fragment, verify_uri, get_uri, the redirect decision),
    Model/Delivery.v (query / fragment / form_post delivery), Lib/Html.v (html.escape).
+   Model/Flight.v (requests in flight at one endpoint object; the completion step under the registration in
+   force when the response is built).
    The models follow the tree after the repairs 3a645c7 0513a4c 9e460b5 226f2a0 690cd16 d89f533 bd0ec73
-   0d1555c; the one recorded finding (empty path parameters, key empty-path-params-dropped) keeps its
+   0d1555c 894d3ce ee6d4b2; the one recorded finding (empty path parameters, key empty-path-params-dropped) keeps its
    guarded theorem and refuting witness. *)
 From Coq Require Import String.
 From Verif Require Import Lib.Base Lib.PyStr Lib.Urlenc Lib.Html Model.Uri Model.Delivery Model.Flight
@@ -325,6 +327,114 @@ Theorem C06_flight_page_own : forall reqs sched i page,
 Proof. exact flight_page_own. Qed.
 Print Assumptions C06_flight_page_own.
 
+(* ================================================================== (e) the second judgement, at completion *)
+
+(* Model/Flight.v, completion: the redirect URI is judged a second time when the response is built
+   (post_authentication, and error_by_response_mode before it sends an error by redirect), under the
+   registration in force THEN (regn: Reg regs native, or Gone when the client was deleted).  complete g md
+   failed p is what authz_part2 + do_response hand to the user agent for request p; answer_at is the whole
+   history of a request: parsed under its own registration (q_regs, q_native) - or taken from where the host
+   stored it and never parsed (example/flask_op/views.py::verify) - and completed under g. *)
+
+(* Whatever the completion step delivers by redirect goes to a URI that get_uri accepts under the registration
+   in force when the response is built (target_at: the request's own URI, accepted by verify_uri against g),
+   and carries exactly the issued parameters ... *)
+Theorem C06_completion_redirect : forall g md failed p url,
+  complete g md failed p = ARedirect url ->
+  exists v l, get_uri_at g (q_oidc p) (q_uri p) = Ok v /\
+    match g with
+    | Gone => False
+    | Reg regs native =>
+        match q_uri p with
+        | Some u => v = u /\ verify_uri regs native (q_oidc p) u = Ok tt
+        | None => exists b q, regs = [RPair b q] /\ join_query b q = Ok v
+        end
+    end /\
+    enc_pairs (q_args p) = Ok l /\
+    url = place v (urlencode_b l) (if failed then mode_frag md else q_frag p).
+Proof. exact complete_redirect. Qed.
+Print Assumptions C06_completion_redirect.
+(* ... and so does a form_post page *)
+Theorem C06_completion_page : forall g md failed p page,
+  complete g md failed p = APage page ->
+  exists v l, get_uri_at g (q_oidc p) (q_uri p) = Ok v /\ target_at g p v /\ form_pairs (q_args p) = Ok l
+              /\ page = form_page v l /\ read_page page = Some (v, l).
+Proof. exact complete_page. Qed.
+Print Assumptions C06_completion_page.
+
+(* A redirect URI that does not verify when the response is built - not registered, no longer registered,
+   malformed, fragment-bearing, the client gone - has no redirect target: nothing is placed in a URL or a
+   page, whatever the exception, the response mode, the response type, and whether or not the completion
+   failed for another reason as well. *)
+Theorem C06_completion_unverified_direct : forall g md failed p e,
+  get_uri_at g (q_oidc p) (q_uri p) = Err e -> complete g md failed p = AOther.
+Proof. exact complete_unverified_direct. Qed.
+Print Assumptions C06_completion_unverified_direct.
+Theorem C06_completion_client_gone : forall md failed p, complete Gone md failed p = AOther.
+Proof. exact complete_gone. Qed.
+Print Assumptions C06_completion_client_gone.
+
+(* An error built by authz_part2 after a failed completion (the session ended between login and completion)
+   is delivered by redirect iff the request's redirect URI verifies against the registration in force at
+   that moment: then it is placed as the request's response_mode says, at the verified URI ... *)
+Theorem C06_failed_completion_error : forall g md p,
+  (forall v, get_uri_at g (q_oidc p) (q_uri p) = Ok v -> complete g md true p = by_mode md v p) /\
+  (forall e, get_uri_at g (q_oidc p) (q_uri p) = Err e -> complete g md true p = AOther).
+Proof. exact complete_failed. Qed.
+Print Assumptions C06_failed_completion_error.
+(* ... (by_mode does deliver: form_post) *)
+Theorem C06_failed_completion_form : forall v p l,
+  form_pairs (q_args p) = Ok l -> by_mode MForm v p = APage (form_page v l).
+Proof. exact by_mode_form. Qed.
+Print Assumptions C06_failed_completion_form.
+
+(* a stored request meets the completion step only: nothing else ever judges its redirect URI *)
+Theorem C06_stored_completion_only : forall viap failed g md r,
+  answer_at true viap failed g md r = complete g md failed r.
+Proof. exact answer_at_stored. Qed.
+Print Assumptions C06_stored_completion_only.
+
+(* the whole history of a request (parsed or stored; process_request or login continuation; completion failing
+   or not; any registration at completion): a redirect or a page goes to a URI verified under the registration
+   in force at completion *)
+Theorem C06_history_redirect : forall stored viap failed g md r url,
+  answer_at stored viap failed g md r = ARedirect url ->
+  exists p v l frag, seen_at_completion stored r p /\ get_uri_at g (q_oidc p) (q_uri p) = Ok v /\ target_at g p v
+                     /\ enc_pairs (q_args r) = Ok l /\ url = place v (urlencode_b l) frag.
+Proof. exact answer_at_redirect. Qed.
+Print Assumptions C06_history_redirect.
+Theorem C06_history_page : forall stored viap failed g md r page,
+  answer_at stored viap failed g md r = APage page ->
+  exists p v l, seen_at_completion stored r p /\ get_uri_at g (q_oidc p) (q_uri p) = Ok v /\ target_at g p v
+                /\ form_pairs (q_args r) = Ok l /\ read_page page = Some (v, l).
+Proof. exact answer_at_page. Qed.
+Print Assumptions C06_history_page.
+
+(* the new dimension is conservative: registration unchanged, completion not failing - the answer of (d) *)
+Theorem C06_history_unchanged : forall viap md r,
+  answer1 r <> AOutside -> answer_at false viap false (Reg (q_regs r) (q_native r)) md r = answer1 r.
+Proof. exact answer_at_unchanged. Qed.
+Print Assumptions C06_history_unchanged.
+
+(* A request in flight while its client re-registers: the second judgement of a URI that passed the first can
+   differ from it in one way only - the URI does not match any more (RedirectURIError); never by another
+   exception (the new registration consisting of parseable entries) ... *)
+Theorem C06_reverify : forall regs0 n0 o0 regs1 n1 o1 u,
+  verify_uri regs0 n0 o0 u = Ok tt -> regs_ok regs1 n1 ->
+  verify_uri regs1 n1 o1 u = Ok tt \/ verify_uri regs1 n1 o1 u = Err redirect_error.
+Proof. exact verify_uri_reverify. Qed.
+Print Assumptions C06_reverify.
+(* ... so either the URI is registered NOW and the answer goes there, or nothing is sent at all *)
+Theorem C06_inflight_answer : forall viap failed regs1 n1 md r u,
+  q_uri r = Some u -> verify_uri (q_regs r) (q_native r) (q_oidc r) u = Ok tt -> regs_ok regs1 n1 ->
+  (verify_uri regs1 n1 (q_oidc r) u = Ok tt /\
+   answer_at false viap failed (Reg regs1 n1) md r
+   = if negb viap && failed then by_mode md u (set_uri r u) else deliver_to u (set_uri r u))
+  \/ (verify_uri regs1 n1 (q_oidc r) u = Err redirect_error /\
+      answer_at false viap failed (Reg regs1 n1) md r = AOther).
+Proof. exact inflight_answer. Qed.
+Print Assumptions C06_inflight_answer.
+
 (* ================================================================== non-vacuity *)
 Definition lo4 : pystr := PS "http://127.0.0.1:8000/cb"%string.
 Example C06_nonvacuous_match :
@@ -387,3 +497,35 @@ Example C06_flight_register_refuted :
   /\ own_answer ep_register rq_a = answer1 rq_a
   /\ ARedirect (cb2 ++ PS "?rp=b&state=sa"%string) <> answer1 rq_a.
 Proof. repeat split; try (vm_compute; reflexivity). vm_compute. discriminate. Qed.
+
+(* completion: the URI is registered when the request is parsed and de-registered (replaced) before the response
+   is built - nothing is sent; registered again - the answer goes there; a stored request with a never
+   registered or a fragment-bearing URI - nothing is sent, also when completion failed and a response mode is given *)
+Definition newcb : pystr := PS "https://client.example.com/new-cb"%string.
+Definition evil : pystr := PS "https://evil.example.org/collect"%string.
+Definition rq_e (u : pystr) : areq :=
+  mk_areq [RPair cb None] false true (Some u) true false [(PS "error"%string, FStr (PS "server_error"%string))].
+Example C06_nonvacuous_completion :
+  answer_at false false false (Reg [RPair newcb None] false) MNone rq_a = AOther
+  /\ answer_at false true false (Reg [RPair newcb None] false) MNone rq_a = AOther
+  /\ answer_at false false false (Reg [RPair newcb None; RPair cb None] false) MNone rq_a = answer1 rq_a
+  /\ answer_at false false false Gone MQuery rq_a = AOther
+  /\ answer_at false false false (Reg [RPair cb None] false) MNone (set_uri rq_a evil) = ADirect
+  /\ answer_at true false false (Reg [RPair cb None] false) MNone (set_uri rq_a evil) = AOther
+  /\ answer_at true false true (Reg [RPair cb None] false) MForm (rq_e evil) = AOther
+  /\ answer_at true false true (Reg [RPair cb None] false) MForm (rq_e (evil ++ [35])) = AOther
+  /\ answer_at true false true (Reg [RPair cb None] false) MQuery (rq_e (cb ++ [35])) = AOther
+  /\ answer_at true false true (Reg [RPair cb None] false) MForm (rq_e cb)
+     = APage (form_page cb [(PS "error"%string, PS "server_error"%string)])
+  /\ answer_at true false false (Reg [RPair cb None] false) MNone rq_a = answer1 rq_a.
+Proof. repeat split; vm_compute; reflexivity. Qed.
+(* the statements have content: a completion step that, when the second judgement fails, fills in the request's
+   own redirect_uri as the place to send the error to, posts the error to a never registered URI and redirects
+   to a de-registered one *)
+Example C06_completion_unverified_refuted :
+  complete_unverified (Reg [RPair cb None] false) MForm (rq_e (evil ++ [35]))
+  = APage (form_page (evil ++ [35]) [(PS "error"%string, PS "server_error"%string)])
+  /\ complete_unverified (Reg [RPair newcb None] false) MQuery rq_a = ARedirect (cb ++ PS "?state=sa"%string)
+  /\ complete (Reg [RPair cb None] false) MForm true (rq_e (evil ++ [35])) = AOther
+  /\ complete (Reg [RPair newcb None] false) MQuery true rq_a = AOther.
+Proof. repeat split; vm_compute; reflexivity. Qed.
